@@ -327,6 +327,42 @@ func execStruct(vec J, out *Writer) {
 			rec["redecoded"] = J{}
 		}
 		out.Put(rec)
+	case "rt_slice":
+		// several values through the Encoder into ONE document, decoded into a slice of the struct type: every
+		// element starts from the zero value, whatever the paragraphs before it carried
+		t := vec["type"].(string)
+		rec := J{"ev": "rt_slice", "in": vec, "panic": false, "ok": false, "decoded": []interface{}{}}
+		func() {
+			defer func() {
+				if r := recover(); r != nil {
+					rec["panic"] = true
+				}
+			}()
+			var buf bytes.Buffer
+			enc, err := control.NewEncoder(&buf)
+			if err != nil {
+				return
+			}
+			for _, vj := range L(vec["values"]) {
+				p := newProbe(t)
+				fill(p, t, M(vj))
+				if enc.Encode(p) != nil {
+					return
+				}
+			}
+			elem := reflect.TypeOf(newProbe(t)).Elem()
+			into := reflect.New(reflect.SliceOf(elem))
+			if control.Unmarshal(into.Interface(), bytes.NewReader(buf.Bytes())) != nil {
+				return
+			}
+			rec["ok"] = true
+			out := []interface{}{}
+			for i := 0; i < into.Elem().Len(); i++ {
+				out = append(out, dump(into.Elem().Index(i).Addr().Interface(), t))
+			}
+			rec["decoded"] = out
+		}()
+		out.Put(rec)
 	case "rt2":
 		// one receiver, two documents: marshal(first) then marshal(second) decoded into the SAME struct (the usual
 		// `for { dec.Decode(&x) }` loop).  Every field the second text carries must hold the second value.
